@@ -39,6 +39,8 @@ Valid(e) ==
   CASE e.op = "enum" -> EnumOK(e)
     [] e.op = "numbers" -> NumbersOK(e)
     [] e.op = "ft" -> LET n == Len(e.v0) \div 2 IN Transvect(Transvect(e.v0, e.h0, n), e.h1, n) = e.v1
+    [] e.op = "tv" -> LET n == Len(e.hs[1]) \div 2 IN /\ Len(e.rows) = Len(e.res)          \* transvection(x, *hs) on an array of any batch shape acts row by row
+                                                       /\ \A i \in 1..Len(e.rows) : FoldLeft(LAMBDA v, h : Transvect(v, h, n), e.rows[i], e.hs) = e.res[i]
     [] e.op = "rand" -> LET n == e.n  m == Unpack(e.m, n) IN InRange(e.t, n) /\ IsSymplectic(m, n) /\ e.b = e.t
     [] e.op = "index" -> LET n == e.n  m == Unpack(e.m, n) IN IsSymplectic(m, n) /\ InRange(e.t, n) /\ Unpack(e.m2, n) = m
     \* events of single calls as the repository's own tests make them (harness/recorder.py)
